@@ -74,7 +74,7 @@ struct Ctx
     std::string                         saved; // bytes of the last save
 };
 
-// ---- C18 table query ops (rel, symname, symvalue, arr32, arr64, versym, verneed, verdef, arrange, alarm)
+// ---- C18 table query ops (rel, symname, symvalue, arr32, arr64, versym, verneed, verdef, arrange, swap, alarm)
 #include "c18_ops.hpp"
 
 static void run_case( const std::vector<Toks>& ops, FILE* out )
